@@ -51,7 +51,8 @@ ASSUMPTIONS = [
     "the set of feature edges (FrameField.feat) and the local bases / edge angles of FrameField.conn are taken as given by the library (subjects of C15 / of the connection); the Laplacian, the fixed/free partition, chi, cotangents are recomputed independently",
     "singularity index normalisation as implemented and documented for crosses: index = angle/(pi/2), so the quantum of an order-n field is 4/n and the indices sum to 4*chi",
     "excluded and counted: systems with cond(L_II) > 1e8 or |cot a + cot b| < 1e-6, free elements whose exact harmonic value has modulus < 1e-6 (direction undefined), constrained vertices left at 0 because their constraints cancel: >=3 incident constrained edges, or <=2 in the unguarded initialisation (odd order or smooth_normals off) when the chart angles of the edges are opposite (exact Gaussian-integer predicate on planar lattice inputs with the flat connection, |sum exp(i*order*angle)| < 1e-6 on the connection's own angles otherwise, taken from the library only under cad_correction which rewrites those angles); in the guarded initialisation (smooth_normals, even order) a vertex with <=2 constrained edges is never excluded; dihedral angles within 1e-6 of the feature threshold",
-    "eigen-solver start vector (closed surfaces) and ARPACK are seeded from VERIF_SEED; only seed-independent clauses are asserted there (unit modulus, index quantum and sum)",
+    "eigen-solver start vector (closed surfaces) and ARPACK are seeded from VERIF_SEED (np.random.seed before each execution; scipy.sparse.linalg.eigsh, which scipy >= 1.15 seeds from OS entropy, is rebound to a version seeded from VERIF_SEED during each execution and restored in a finally); only seed-independent clauses are asserted there (unit modulus, index quantum and sum)",
+    "excluded and counted (excluded_singular_smoothing_system): closed input without constrained element, n_smooth > 0, and a singular connection Laplacian (smallest eigenvalue of the independently assembled operator < 1e-9 x the largest: the order-n connection is trivial, e.g. order 4 on the octahedron's vertices, even orders on the tetrahedron's faces): the library's smoothing matrix lap - alpha*A is then exactly singular for the exact attach weight and whether the solver returns a unit field or NaN is a matter of round-off (reported as a finding, not asserted)",
     "relabeling / face-start invariance is asserted with smoothing switched off and cad_correction off (OSQP's 1e-3 tolerance is not round-off)",
     "histories have length two, one fresh mesh object per pair; the first field is not used again after the second one was built (FeatureEdgeDetector results of successive fields share the mesh's 'corners'/'feature' attributes by design)",
     "the duplicate-attribute switch is set and restored by the runner around the whole task (mc/runner.py, dupflag variant); each such task verifies on a scratch container that a second create_attribute under one name returns the first attribute (and returns a new one in the regular tasks)",
@@ -392,15 +393,29 @@ def _execute(M, pts, faces, cfg, want_sing, mesh=None):
         kw["custom_connection"] = Conn(mesh)
     np.random.seed(SEED)
     r.stage = "construct"
-    o = call(ff.SurfaceFrameField, mesh, cfg["el"], **kw)
-    if o.ok:
-        r.f = o.value
-        r.stage = "initialize"
-        o = call(r.f.initialize)
-    if o.ok:
-        r.var0 = np.array(r.f.var, dtype=complex).copy()
-        r.stage = "run"
-        o = call(r.f.run)
+    # seam: scipy >= 1.15 draws ARPACK's start vector from np.random.default_rng(None) (OS entropy) unless told otherwise: the
+    # attach weight of the smoothing steps then differs in its last digits from run to run.  The module attribute the library
+    # calls (scipy.sparse.linalg.eigsh) is rebound to a version seeded from VERIF_SEED for the duration of the execution.
+    import scipy.sparse.linalg as spl
+    eigsh0 = spl.eigsh
+
+    def eigsh_seeded(*a, **k):
+        if k.get("v0") is None and k.get("rng") is None:
+            k["rng"] = np.random.default_rng(SEED)
+        return eigsh0(*a, **k)
+    spl.eigsh = eigsh_seeded
+    try:
+        o = call(ff.SurfaceFrameField, mesh, cfg["el"], **kw)
+        if o.ok:
+            r.f = o.value
+            r.stage = "initialize"
+            o = call(r.f.initialize)
+        if o.ok:
+            r.var0 = np.array(r.f.var, dtype=complex).copy()
+            r.stage = "run"
+            o = call(r.f.run)
+    finally:
+        spl.eigsh = eigsh0
     if not o.ok:
         r.exc, r.msg = o.exc, o.msg
         return r
@@ -553,6 +568,22 @@ def _check(rep: Report, M, name, pts, faces, cfg, want_sing=True, relabel_tag=No
                 viol("C18.connection.basis", "SurfaceConnection.base", "mismatch:not_orthonormal_tangent", icls,
                      dict(ctx, element=i, X=X, Y=Y, defect=d))
                 break
+
+    # ---- excluded (exact predicate on the independently assembled operator): closed input, nothing constrained, smoothing on,
+    # and a connection Laplacian that is singular (the order-n connection is trivial: a parallel field exists).  Its spectrum is
+    # then that of the scalar Laplacian, so the attach weight (first non-zero eigenvalue of the scalar problem) makes the matrix
+    # lap - alpha*A of the smoothing steps exactly singular: the outcome (a unit field, or NaN) is decided by round-off.
+    if geo.closed and not fixed and cfg["ns"] > 0:
+        if el == "faces":
+            Ls = L.face_connection_laplacian(geo, bases, order, cfg["cot"])[0]
+        else:
+            Ls = L.vertex_connection_laplacian(geo, f.conn.transport, order, cfg["cot"])
+        ev = np.linalg.eigvalsh(Ls)
+        rep.outcome("closed_smoothing_system", "regular" if abs(ev[0]) > 1e-9 * max(1.0, abs(ev[-1])) else "singular")
+        if not abs(ev[0]) > 1e-9 * max(1.0, abs(ev[-1])):
+            rep.count("excluded_singular_smoothing_system")
+            rep.count("excluded_singular_smoothing_system:" + el)
+            return None
 
     # ---- harmonic extension oracle (also tells which free elements have an undefined direction)
     zero_free = set()
